@@ -555,7 +555,7 @@ class ChainSingle(_NoReplay):
     """single chain, symbolic n_steps / burn_in / thinning: retained state j is kernel iterate burn_in + j*thinning,
     accepts[j] the flag saved in that iteration, rate their mean, n_steps the number retained"""
 
-    cases = ["simple_kernel", "composite_kernel", "kernel_without_accept_flag"]
+    cases = ["simple_kernel", "composite_kernel", "kernel_without_accept_flag", "simple_kernel:second_call_on_the_same_runner_with_another_burn_in"]
 
     def call(self, case):
         reset()
@@ -569,10 +569,21 @@ class ChainSingle(_NoReplay):
         g = self.g
         self.init = AbsTrace(g, (self.args, {}), self.x0, Sym(g.R(self.a, self.x0.e)), Sym(-g.D(self.a, self.x0.e)))
         self.K = AbsKernel(g, self.a, composite=(case == "composite_kernel"), saves_accept=(case != "kernel_without_accept_flag"))
+        C = core.Const
+        if "second_call_on_the_same_runner" in case:
+            # HISTORY on one runner object: chain(kernel) is kept and called for the schedule (10, 0, 2), then for
+            # (12, 2, 2) - same window and thinning, another burn-in.  The second result is that of ITS schedule (nothing
+            # computed for an earlier call may be reused for another input).  Concrete schedules: a memo would hash them
+            run = self.real(self.fn, self.K)
+            self.real(run, self.init, C(10), burn_in=C(0), autocorrelation_resampling=C(2), n_chains=C(1))
+            eng.extra["nonce"] = 0  # the second call's draws / saved flags are named as those of a first call are
+            SAVE_LANES.clear()
+            self.K.reset_records() if hasattr(self.K, "reset_records") else None
+            self.n, self.b, self.th = Sym(z3.IntVal(12)), Sym(z3.IntVal(2)), Sym(z3.IntVal(2))
+            return self.real(run, self.init, C(12), burn_in=C(2), autocorrelation_resampling=C(2), n_chains=C(1))
         self.n, self.b, self.th = integer("n_steps"), integer("burn_in"), integer("thinning")
         eng.assume(z3.And(self.th.e >= 1, self.b.e >= 0, self.b.e < self.n.e))  # non-empty result
         run = self.real(self.fn, self.K)
-        C = core.Const
         return self.real(run, self.init, C(self.n), burn_in=C(self.b), autocorrelation_resampling=C(self.th), n_chains=C(1))
 
     def ensures(self, case, path):
@@ -582,10 +593,11 @@ class ChainSingle(_NoReplay):
         res = path.value
         n, b, th = self.n.e, self.b.e, self.th.e
         scans = path.extra.get("scans", [])
-        yield "one_scan_over_the_kernel", len(scans) == 1
-        if len(scans) != 1:
+        want_scans = 2 if "second_call_on_the_same_runner" in case else 1
+        yield "one_scan_over_the_kernel(per_call)", len(scans) == want_scans
+        if len(scans) != want_scans:
             return
-        rec = scans[0]
+        rec = scans[-1]
         Tn = rec["T"]
         jj = fresh("jj", z3.IntSort())
         # the run is long enough for every retained step (running the discarded tail as well is allowed, not required)
@@ -620,6 +632,10 @@ class ChainSingle(_NoReplay):
             yield "exactly_the_retained_states_are_returned(as many as n_steps says)", xs_len is not None and xs_len == Le
             yield "accepts_has_one_entry_per_retained_state", isinstance(res.accepts, Tensor) and _lift(res.accepts.shape[0]) == Le
             yield "n_chains_recorded", res.n_chains.value == 1
+            return
+        if "second_call_on_the_same_runner" in case:
+            # the accept flags of the two calls share the harness's save recorder: only the retained states are compared here
+            yield "accepts_has_one_entry_per_retained_state", isinstance(res.accepts, Tensor) and z3.simplify(_lift(res.accepts.shape[0]) == Le)
             return
         yield "accepts_j_is_the_flag_saved_in_that_iteration(last_write_wins)", isinstance(res.accepts, Tensor) and z3.Implies(rng, res.accepts.fn((j,)) == acc_t(b + j * th))
         yield "acceptance_rate_is_mean_of_accepts", same(res.acceptance_rate, Sym(mk_sum(Le, lambda i: res.accepts.fn((i,))) / z3.ToReal(Le)))
